@@ -3,6 +3,7 @@ import AlgopyVerif.Proofs.Analytic
 import AlgopyVerif.Model.Dtype
 import AlgopyVerif.Proofs.Lift
 import AlgopyVerif.Proofs.Jet
+import AlgopyVerif.Proofs.Power
 /-!
 # C02 — arithmetic is exact truncated power-series arithmetic
 
@@ -63,6 +64,19 @@ theorem mul_taylor (x y : List ℝ) (d : ℕ) (hd : d < x.length) :
 
 theorem div_taylor (x y : List ℝ) (hy : co y 0 ≠ 0) (d : ℕ) (hd : d < x.length) :
     co (divS x y) d = tc (fun t => curve x t / curve y t) d := AV.div_taylor x y hy d hd
+
+/-- `x ** r` with `r` an **ndarray of non-negative integers**, at one entry of the array (exponent `r`, the loop runs
+up to the largest exponent `m ≥ r` of the array): coefficient `d` is the `d`-th Taylor coefficient of `X(t)^r`, for
+every base point — zero included, the masked products never divide — i.e. exactly what the Python-int exponent gives
+(`C01.pownat`). -/
+theorem pow_int_array_entry (x : List ℝ) (r m : ℕ) (h : r ≤ m) (d : ℕ) (hd : d < x.length) :
+    co (powMaskS r m x) d = tc (fun t => curve x t ^ r) d := by
+  have hj := powMask_jet_of_le (jetOf_curve x) r m h
+  have hl := (powMask_jet (jetOf_curve x) r m).2
+  exact hj.2 d (by rw [hl]; exact hd)
+
+/-- non-vacuity: a zero base point, exponent 2 inside an array whose largest exponent is 3: `(3t + t²)² = 9t² (+ …)` -/
+example : powMaskS 2 3 ([0, 3, 1] : List ℚ) = [0, 0, 9] := by decide +kernel
 
 /-! ## operator level: UTPM ∘ UTPM with NumPy broadcasting of the coefficient shapes -/
 section
